@@ -211,11 +211,49 @@ fn lag(rng: &mut Rng, i: u64) -> String {
     format!("c09 0 {} {} {}", parts.join("|"), sub, sched.join(","))
 }
 
+/// the subscription is live and waits for an acknowledgement (it holds one received record) while more
+/// events than the channel holds are appended, confirmed and then broadcast at once: the events it still
+/// needs are dropped from the channel, only the history re-read after Lagged can deliver them
+fn lag_live(rng: &mut Rng, i: u64) -> String {
+    let target = rng.below(NP);
+    let other = (target + 1) % NP;
+    let pre = rng.range(1, 6);
+    let mut parts: Vec<String> = (0..NP).map(|_| "-".to_string()).collect();
+    parts[target as usize] = format!("1:0*{pre}");
+    let win = *rng.pick(&[1u64, 2]);
+    let s0 = target * 4;
+    let sub = match i % 5 {
+        0 => format!("part/{target}/-/w{win}"),
+        1 => format!("stream/{s0}/-/w{win}"),
+        2 => format!("all/L/w{win}"),
+        3 => format!("parts/{target}.{other}/L/w{win}"),
+        _ => format!("streams/{s0}.{}/L/w{win}", s0 + 1),
+    };
+    let bg = rng.chance(1, 2);
+    let mut sched = Vec::new();
+    if bg { sched.push(format!("x{target}:0")); }
+    sched.push("S".to_string());
+    // `win` records go out, the next one is received and waits for the window
+    sched.push(format!("x{target}:0*{}", win + 1));
+    let k = rng.range(262, 285);
+    sched.push(format!("a{target}:0000*{k}"));
+    sched.push(format!("c{target}*{k}"));
+    sched.push(format!("x{target}:0"));
+    sched.push("F".into());
+    sched.push(format!("x{target}:0"));
+    sched.push("F".into());
+    format!("c09 {} {} {} {}", bg as u8, parts.join("|"), sub, sched.join(","))
+}
+
 pub fn generate(rng: &mut Rng, thorough: bool) -> Vec<String> {
-    let (ns, nb, nl) = if thorough { (4000, 800, 40) } else { (300, 60, 6) };
+    let (ns, nb, nl, nll) = if thorough { (2400, 500, 30, 10) } else { (300, 60, 5, 3) };
     let mut v = Vec::new();
+    // the long scenarios first: the child processes take the lines round-robin
+    // the single-stream and single-partition kinds every time, the other kinds in turn
+    let off = rng.below(3);
+    for i in 0..nll { let kind = match i { 0 => 1, 1 => 0, _ => 2 + (i + off) % 3 }; v.push(lag_live(rng, kind)); }
+    for i in 0..nl { let j = i + rng.below(5); v.push(lag(rng, j)); }
     for i in 0..ns { v.push(small(rng, i)); }
     for i in 0..nb { v.push(batches(rng, i)); }
-    for i in 0..nl { let j = i + rng.below(5); v.push(lag(rng, j)); }
     v
 }
